@@ -121,6 +121,15 @@ fn f_pair<'a>(args: FunctionArgs<'_, 'a>) -> Option<LhsValue<'a>> {
     show(&a[1], &mut out);
     Some(LhsValue::Bytes(out.into()))
 }
+fn f_plen<'a>(args: FunctionArgs<'_, 'a>) -> Option<LhsValue<'a>> {
+    let a = collect("plen", args);
+    let mut out = Vec::new();
+    show(&a[0], &mut out);
+    let n = out.len();
+    out.clear();
+    show(&a[1], &mut out);
+    Some(LhsValue::Int((n + out.len()) as i64))
+}
 fn f_opt2<'a>(args: FunctionArgs<'_, 'a>) -> Option<LhsValue<'a>> {
     let a = collect("opt2", args);
     let mut out = Vec::new();
@@ -361,6 +370,7 @@ pub fn add_func(b: &mut SchemeBuilder, f: &FuncSpec) -> Result<(), String> {
         "blen" => Some(SimpleFunctionImpl::new(f_blen)),
         "alen" => Some(SimpleFunctionImpl::new(f_alen)),
         "pair" => Some(SimpleFunctionImpl::new(f_pair)),
+        "plen" => Some(SimpleFunctionImpl::new(f_plen)),
         "opt2" => Some(SimpleFunctionImpl::new(f_opt2)),
         "lit_only" => Some(SimpleFunctionImpl::new(f_lit_only)),
         "ba" => Some(SimpleFunctionImpl::new(f_ba)),
